@@ -182,7 +182,14 @@ def csqrt(table):
 # ------------------------------------------------------------------------------------------------
 # expression generators (shape-directed)
 # ------------------------------------------------------------------------------------------------
-def gen_slr(rng, depth, r, c, dmax):
+def factor(rng, r, c, dmax):
+    """a sparse factor of a product; kept sparse when large (the model never merges duplicate coordinates, so the
+    number of stored entries of a product is the product of the row lengths)"""
+    return rsm(rng, r, c, p=rng.choice([0.1, 0.2, 0.3]) if max(r, c, dmax) > 6 else None)
+
+
+def gen_slr(rng, depth, r, c, dmax, budget=None):
+    budget = budget if budget is not None else {'norm': 2, 'prod': 3}
     if depth <= 0 or rng.random() < 0.2:
         if rng.random() < 0.3:
             return ['SReg', rsm(rng, r, c), rng.choice([0, 1, 2, 0.5, 3])]
@@ -192,25 +199,33 @@ def gen_slr(rng, depth, r, c, dmax):
     if r == c:
         ops.append('SD2U')
     op = rng.choice(ops)
+    if op == 'SNormalize' and budget['norm'] <= 0:
+        op = 'SNeg'
+    if op in ('SLeft', 'SRight') and budget['prod'] <= 0:
+        op = 'SMul'
+    if op == 'SNormalize':
+        budget['norm'] -= 1
+    if op in ('SLeft', 'SRight'):
+        budget['prod'] -= 1
     if op in ('SNeg', 'SAstype', 'SNormalize', 'SD2U'):
-        sub = gen_slr(rng, depth - 1, r, c, dmax)
+        sub = gen_slr(rng, depth - 1, r, c, dmax, budget)
         while op == 'SD2U' and is_bare_reg(sub):     # check_csr_or_slr tests type(x) in [csr_matrix, SparseLR]: a bare Regularizer is rejected
-            sub = gen_slr(rng, depth - 1, r, c, dmax)
+            sub = gen_slr(rng, depth - 1, r, c, dmax, budget)
         return [op, sub]
     if op in ('SAdd', 'SSub'):
-        return [op, gen_slr(rng, depth - 1, r, c, dmax), gen_slr(rng, min(depth - 1, rng.choice([0, 1])), r, c, dmax)]
+        return [op, gen_slr(rng, depth - 1, r, c, dmax, budget), gen_slr(rng, min(depth - 1, rng.choice([0, 1])), r, c, dmax, budget)]
     if op in ('SAddCsr', 'SSubCsr'):
-        return [op, gen_slr(rng, depth - 1, r, c, dmax), rsm(rng, r, c)]
+        return [op, gen_slr(rng, depth - 1, r, c, dmax, budget), rsm(rng, r, c)]
     if op == 'SMul':
-        return [op, rng.choice([2, -1, 0.5, 3, -0.25, 0]), gen_slr(rng, depth - 1, r, c, dmax)]
+        return [op, rng.choice([2, -1, 0.5, 3, -0.25, 0]), gen_slr(rng, depth - 1, r, c, dmax, budget)]
     if op == 'SLeft':
         k = rng.randint(1, dmax)
-        return [op, rsm(rng, r, k), gen_slr(rng, depth - 1, k, c, dmax)]
+        return [op, factor(rng, r, k, dmax), gen_slr(rng, depth - 1, k, c, dmax, budget)]
     if op == 'SRight':
         k = rng.randint(1, dmax)
-        return [op, gen_slr(rng, depth - 1, r, k, dmax), rsm(rng, k, c)]
+        return [op, gen_slr(rng, depth - 1, r, k, dmax, budget), factor(rng, k, c, dmax)]
     if op == 'ST':
-        return [op, gen_slr(rng, depth - 1, c, r, dmax)]
+        return [op, gen_slr(rng, depth - 1, c, r, dmax, budget)]
     raise AssertionError(op)
 
 
@@ -219,14 +234,20 @@ def is_bare_reg(e):
     return e[0] == 'SReg' or (e[0] == 'SAstype' and is_bare_reg(e[1]))
 
 
-def gen_cn(rng, depth, dmax, square_only):
+def gen_cn(rng, depth, dmax, square_only, budget=None):
     """returns (expr, (r, c)) — shape of the matrix denoted"""
+    budget = budget if budget is not None else {'prod': 2 if dmax > 6 else 3}
     if depth <= 0 or rng.random() < 0.2:
         n = rng.randint(1, dmax)
         m = rng.randint(1, dmax)
-        return ['CBase', rsm(rng, n, m, nonneg=True, nonempty=True), rng.random() < 0.6], (n, n)
+        return ['CBase', rsm(rng, n, m, nonneg=True, nonempty=True, p=rng.choice([0.15, 0.3]) if dmax > 6 else None), rng.random() < 0.6], (n, n)
     op = rng.choice(['CNeg', 'CMul', 'CLeft', 'CRight', 'CT', 'CAstype'])
-    e, (r, c) = gen_cn(rng, depth - 1, dmax, square_only)
+    if op in ('CLeft', 'CRight'):
+        if budget['prod'] <= 0:
+            op = 'CNeg'
+        else:
+            budget['prod'] -= 1
+    e, (r, c) = gen_cn(rng, depth - 1, dmax, square_only, budget)
     if op in ('CNeg', 'CAstype'):
         return [op, e], (r, c)
     if op == 'CMul':
@@ -235,9 +256,9 @@ def gen_cn(rng, depth, dmax, square_only):
         return [op, e], (c, r)
     if op == 'CLeft':
         k = r if square_only else rng.randint(1, dmax)
-        return [op, rsm(rng, k, r), e], (k, c)
+        return [op, factor(rng, k, r, dmax), e], (k, c)
     k = c if square_only else rng.randint(1, dmax)
-    return ['CRight', e, rsm(rng, c, k)], (r, k)
+    return ['CRight', e, factor(rng, c, k, dmax)], (r, k)
 
 
 def cn_shared(e):
@@ -436,9 +457,11 @@ def run(ctx, scratch):
 def run_operators(ctx, impl, rng, quick, dmax, depth_max, notes):
     n_cases = 1500 if quick else 6000
     cases = []
+    profiles = [(dmax, depth_max)] if quick else [(7, depth_max), (dmax, 3), (dmax, 2)]
     for k in range(n_cases):
-        depth = rng.randint(0, depth_max)
-        op, (r, c) = gen_op(rng, depth, dmax, defects=(k % 3 == 0))
+        dm, dp = rng.choice(profiles)
+        depth = rng.randint(0, dp)
+        op, (r, c) = gen_op(rng, depth, dm, defects=(k % 3 == 0))
         x = rvec(rng, c)
         X = [rvec(rng, 2) for _ in range(c)]
         cases.append(dict(op=op, x=x, X=X, shape=(r, c), depth=depth, with_dense=(k % 2 == 0)))
@@ -447,9 +470,11 @@ def run_operators(ctx, impl, rng, quick, dmax, depth_max, notes):
         op_c = {'cls': cs['op']['cls'], 'e': strip_fmt(cs['op']['e'])}
         cs['op_c'] = op_c
         exprs.append('opcase %s %s %s %s %s' % (csqrt(sqrt_table(op_c)), cop(op_c), cvec(cs['x']), cmat(cs['X']), cbool(cs['with_dense'])))
-    model = unq(coq_eval('c15op', IMPORTS, exprs, prelude=PRELUDE, shard=60 if quick else 100, timeout=900))
+    model = safe_eval(ctx, 'c15op', exprs, shard=60 if quick else 50)
     for idx, (cs, mv) in enumerate(zip(cases, model)):
         op = cs['op']
+        if mv is None:          # the exact-rational evaluation of this case exceeded its budget (counted, not a verdict)
+            continue
         m_dot, m_mat, (m_dense, m_sums) = mv
         r = impl.call('c15', 'expr', dict(op=op, x=cs['x'], X=cs['X']), timeout=60)
         ctx.traces += 1
@@ -534,6 +559,36 @@ def run_operators(ctx, impl, rng, quick, dmax, depth_max, notes):
                           case=case, expected=fl(m_dense), observed=out['dense'], cls=op['cls'])
         if idx % 150 == 0:
             ctx.sample(dict(kind='operator', op=cs['op_c'], x=cs['x'], model_dot=fl(m_dot), impl_dot=d, defect_site=site))
+
+
+def safe_eval(ctx, tag, exprs, shard):
+    """coq_eval that isolates the rare case whose exact rationals explode: such a case yields None and is counted"""
+    from ..common import CoqEvalError
+    out = []
+    chunk = shard * 8
+    for a in range(0, len(exprs), chunk):
+        part = exprs[a:a + chunk]
+        try:
+            out.extend(unq(coq_eval(tag, IMPORTS, part, prelude=PRELUDE, shard=shard, timeout=240)))
+            continue
+        except CoqEvalError:
+            pass
+        for b in range(0, len(part), shard):
+            piece = part[b:b + shard]
+            try:
+                out.extend(unq(coq_eval(tag, IMPORTS, piece, prelude=PRELUDE, shard=shard, timeout=240)))
+                continue
+            except CoqEvalError:
+                pass
+            for e in piece:
+                try:
+                    out.extend(unq(coq_eval(tag, IMPORTS, [e], prelude=PRELUDE, shard=1, timeout=20)))
+                except CoqEvalError:
+                    out.append(None)
+                    ctx.extra['model_budget_exceeded'] = ctx.extra.get('model_budget_exceeded', 0) + 1
+    if ctx.extra.get('model_budget_exceeded', 0) > max(3, len(exprs) // 100):
+        raise CoqEvalError('too many model evaluations exceeded their budget (%d)' % ctx.extra['model_budget_exceeded'])
+    return out
 
 
 def mats_of(e):
